@@ -1062,6 +1062,10 @@ package http2
 //@ opt noframe=true
 //@ # after a GOAWAY the connection is closing, and no stream above closeRef is promised
 //@ ensures closing: sc.state == 1
+//@ # what goes out is a GOAWAY frame with the given code whose last-stream-id is the highest stream opened so far
+//@ # (RFC 7540 6.8), not the stream the error is about
+//@ assert@call:(*serverConn).write#1 frame: arg1 != nil && typeis(arg1.fr, *GoAway) &&
+//@ |   as(arg1.fr, *GoAway).stream == sc.lastID % 2147483648 && as(arg1.fr, *GoAway).code == code % 2147483648
 //@ ensures ref: strm != 0 ==> sc.closeRef == sc.lastID
 //@ ensures noref: strm == 0 ==> sc.closeRef == old(sc.closeRef)
 
@@ -1368,9 +1372,9 @@ package http2
 //@ macro tblsSep(sc) = cap(sc.enc.dynamic) == 0 || cap(sc.dec.dynamic) == 0 || !samearray(sc.enc.dynamic, sc.dec.dynamic)
 
 //@ # ---- the stream table ----
-//@ # every stream in the table is usable: it has its request context, it has not been handed back to the pools
+//@ # every stream in the table was opened by HEADERS (so it holds one of the MaxConcurrentStreams slots), is usable: it has its request context, it has not been handed back to the pools
 //@ # (abandoned streams are out of the table), and a handler runs only for a stream whose request was dispatched
-//@ macro tblOK(t) = forall(i, 0, len(t), t[i] != nil && t[i].ctx != nil && t[i].recvBody >= 0 && !t[i].abandoned && (t[i].handlerRunning ==> t[i].responded))
+//@ macro tblOK(t) = forall(i, 0, len(t), t[i] != nil && t[i].ctx != nil && t[i].recvBody >= 0 && !t[i].abandoned && (t[i].handlerRunning ==> t[i].responded) && t[i].origType == FrameHeaders)
 //@ # one entry per stream identifier (Search and Del go by identifier and stop at the first match)
 //@ macro tblUniq(t) = forall(i, 0, len(t), forall(j, 0, i, t[i].id != t[j].id))
 //@ # the ring of recently closed stream ids
@@ -1404,6 +1408,7 @@ package http2
 //@ loop 1: invariant tbl: tblOK(outer(strms))
 //@ loop 1: invariant uniq: tblUniq(outer(strms))
 //@ loop 1: invariant ids: tblIds(outer(strms), sc.lastID)
+//@ loop 1: invariant slots: outer(openStreams) <= sc.st.maxStreams
 //@ loop 1: invariant ring: ringOK(outer(closedRing), outer(closedOldest))
 
 //@ func (*serverConn).handleStreams
@@ -1413,6 +1418,20 @@ package http2
 //@ # ASSUMPTION: int64 window counters and the int stream counter do not overflow
 //@ opt noovf=true
 //@ ghost marked = 0
+//@ # highest stream whose request has been handed to a handler
+//@ ghost maxd = 0
+//@ # ---- dispatch (C01, C08, C13, C20): only a complete, legal request that holds a slot reaches a handler ----
+//@ assert@call:(*serverConn).dispatchHandler#1 legal: arg1.state == StreamStateHalfClosed && arg1.headersFinished && arg1.origType == FrameHeaders
+//@ assert@call:(*serverConn).dispatchHandler#1 bodylen: !arg1.hasContentLength || arg1.recvBody == arg1.contentLength
+//@ assert@call:(*serverConn).dispatchHandler#1 slot: openStreams >= 0 ==> openStreams <= sc.st.maxStreams
+//@ ghost@call:(*serverConn).dispatchHandler#1 maxd = max(maxd, arg1.id)
+//@ # ---- GOAWAY tells the truth (C10): last-stream-id (sc.lastID, see writeGoAway) is not below a stream that was dispatched ----
+//@ assert@call:(*serverConn).writeGoAway#1 truth_winstream: sc.lastID >= maxd
+//@ assert@call:(*serverConn).writeGoAway#2 truth_winconn: sc.lastID >= maxd
+//@ assert@call:(*serverConn).writeGoAway#3 truth_rstidle: sc.lastID >= maxd
+//@ assert@call:(*serverConn).writeGoAway#4 truth_closed: sc.lastID >= maxd
+//@ assert@call:(*serverConn).writeGoAway#5 truth_prioself: sc.lastID >= maxd
+//@ assert@call:(*serverConn).writeGoAway#6 truth_lowid: sc.lastID >= maxd
 //@ modifies *sc, anybytes(), family(Stream), family(HeaderField), family(FrameHeader),
 //@ |   family(Data), family(Headers), family(Priority), family(RstStream), family(Settings), family(PushPromise), family(Ping), family(GoAway), family(WindowUpdate), family(Continuation)
 //@ # ---- main loop ----
@@ -1425,6 +1444,8 @@ package http2
 //@ loop 0: invariant table: tblOK(strms)
 //@ loop 0: invariant uniq: tblUniq(strms)
 //@ loop 0: invariant ids: tblIds(strms, sc.lastID)
+//@ loop 0: invariant disp: maxd <= sc.lastID
+//@ loop 0: invariant slots: openStreams <= sc.st.maxStreams
 //@ # the frame handled in the last iteration is released at the top of the next one
 //@ loop 0: invariant handled: handled == nil || handled.fr != nil
 //@ loop 0: invariant ring: ringOK(closedRing, closedOldest)
@@ -1434,6 +1455,7 @@ package http2
 //@ loop 2: invariant table: tblOK(strms)
 //@ loop 2: invariant uniq: tblUniq(strms)
 //@ loop 2: invariant ids: tblIds(strms, sc.lastID)
+//@ loop 2: invariant slots: openStreams <= sc.st.maxStreams
 //@ loop 2: invariant ring: ringOK(closedRing, closedOldest)
 //@ loop 2: invariant cnt: deleteUntil <= len(strms)
 //@ # ---- SETTINGS_INITIAL_WINDOW_SIZE: the delta reaches every stream in the table (RFC 7540 6.9.2) ----
@@ -1448,5 +1470,6 @@ package http2
 //@ loop 4: invariant table: tblOK(strms)
 //@ loop 4: invariant uniq: tblUniq(strms)
 //@ loop 4: invariant ids: tblIds(strms, sc.lastID)
+//@ loop 4: invariant slots: openStreams <= sc.st.maxStreams
 //@ loop 4: invariant ring: ringOK(closedRing, closedOldest)
 //@ loop 4: invariant cur: strm != nil && strm.ctx != nil && strm.recvBody >= 0 && !strm.abandoned && (strm.handlerRunning ==> strm.responded)
